@@ -687,3 +687,295 @@ func sameNameExpr(a, b ssa.Value) bool {
 	pa, pb := ir.PathOf(ca.Common().Args[0]), ir.PathOf(cb.Common().Args[0])
 	return pa.Root == pb.Root && pa.String() == pb.String()
 }
+
+const ruleT17 = "T17-memoised-views"
+
+// memoisedViews: a field that keeps the result of a computation over other fields of the same struct is reset by
+// everything that changes those fields. A memo is recognised by its shape: a method M that (a) returns the value of a
+// field c of its receiver on a branch that tests c (non-nil / non-empty), and (b) stores into c elsewhere, while (c)
+// reading a map or slice field f of the same receiver. Every other library function that updates f (store, map
+// update, delete, element store) must also store into c - otherwise M keeps answering from before the update.
+func (c *Ctx) memoisedViews() {
+	c.R.Rule(ruleT17, "for every method that answers from a field it fills itself (tests c, returns c; stores c) while reading a map / slice field f of the same struct: each function of the library that updates f also stores into c. Memo fields are found by that shape, not listed.")
+	type memo struct {
+		st     *types.Named
+		c      string
+		src    map[string]bool
+		method *ssa.Function
+	}
+	fieldOf := func(addr ssa.Value, recv ssa.Value) (string, bool) {
+		fa, ok := addr.(*ssa.FieldAddr)
+		if !ok || ir.SeeThrough(fa.X) != recv {
+			return "", false
+		}
+		stt, _ := structOfType(fa.X.Type())
+		if stt == nil {
+			return "", false
+		}
+		return stt.Field(fa.Field).Name(), true
+	}
+	var memos []memo
+	for _, fn := range c.P.Funcs {
+		if fn.Pkg == nil || !strings.HasPrefix(fn.Pkg.Pkg.Path(), core.ModPath) || fn.Signature.Recv() == nil || fn.Parent() != nil || len(fn.Params) == 0 || fn.Blocks == nil {
+			continue
+		}
+		_, named := structOfType(fn.Params[0].Type())
+		if named == nil {
+			continue
+		}
+		recv := ssa.Value(fn.Params[0])
+		stored := map[string]bool{}
+		returned := map[string]bool{}
+		tested := map[string]bool{}
+		reads := map[string]bool{}
+		for _, b := range fn.Blocks {
+			for _, in := range b.Instrs {
+				switch x := in.(type) {
+				case *ssa.Store:
+					if f, ok := fieldOf(x.Addr, recv); ok {
+						if k, isK := x.Val.(*ssa.Const); !isK || !k.IsNil() {
+							stored[f] = true
+						}
+					}
+				case *ssa.UnOp:
+					if x.Op != token.MUL {
+						continue
+					}
+					f, ok := fieldOf(x.X, recv)
+					if !ok {
+						continue
+					}
+					switch x.Type().Underlying().(type) {
+					case *types.Map, *types.Slice:
+						reads[f] = true
+					}
+					if x.Referrers() == nil {
+						continue
+					}
+					for _, ref := range *x.Referrers() {
+						switch r := ref.(type) {
+						case *ssa.Return:
+							returned[f] = true
+						case *ssa.Store:
+							// a function with a defer returns through result slots: the load is stored into a local whose value is
+							// what the return statement loads
+							if al, isAl := r.Addr.(*ssa.Alloc); isAl && r.Val == ssa.Value(x) && al.Referrers() != nil {
+								for _, ar := range *al.Referrers() {
+									if ld, isLd := ar.(*ssa.UnOp); isLd && ld.Referrers() != nil {
+										for _, lr := range *ld.Referrers() {
+											if _, isRet := lr.(*ssa.Return); isRet {
+												returned[f] = true
+											}
+										}
+									}
+								}
+							}
+						case *ssa.BinOp:
+							if r.Op == token.NEQ || r.Op == token.EQL {
+								if k, isK := r.Y.(*ssa.Const); isK && k.IsNil() {
+									tested[f] = true
+								}
+							}
+						case *ssa.Call:
+							if bi, isB := r.Common().Value.(*ssa.Builtin); isB && bi.Name() == "len" && r.Referrers() != nil {
+								for _, rr := range *r.Referrers() {
+									if bo, isBo := rr.(*ssa.BinOp); isBo {
+										switch bo.Op {
+										case token.NEQ, token.EQL, token.GTR, token.LSS:
+											tested[f] = true
+										}
+									}
+								}
+							}
+						}
+					}
+				}
+			}
+		}
+		for f := range stored {
+			if !returned[f] || !tested[f] {
+				continue
+			}
+			src := map[string]bool{}
+			for r := range reads {
+				if r != f && !(stored[r] && returned[r] && tested[r]) {
+					src[r] = true
+				}
+			}
+			if len(src) > 0 {
+				memos = append(memos, memo{named, f, src, fn})
+			}
+		}
+	}
+	sort.Slice(memos, func(i, j int) bool { return fname(memos[i].method)+memos[i].c < fname(memos[j].method)+memos[j].c })
+	c.R.Count("memoised views found", len(memos))
+	for _, m := range memos {
+		// updaters of the source fields
+		var missing []string
+		nupd := 0
+		for _, fn := range c.P.Funcs {
+			if fn == m.method || fn.Blocks == nil || fn.Pkg == nil || !strings.HasPrefix(fn.Pkg.Pkg.Path(), core.ModPath) {
+				continue
+			}
+			updates, resets := false, false
+			isSrc := func(addr ssa.Value) bool {
+				p := ir.PathOf(addr)
+				if len(p.Fields) == 0 || len(p.Owners) == 0 {
+					return false
+				}
+				if _, fresh := p.Root.(*ssa.Alloc); fresh {
+					return false
+				}
+				for i, f := range p.Fields {
+					if i < len(p.Owners) && p.Owners[i] != nil && p.Owners[i].Obj() == m.st.Obj() && m.src[f] {
+						return true
+					}
+				}
+				return false
+			}
+			isMemo := func(addr ssa.Value) bool {
+				p := ir.PathOf(addr)
+				n := len(p.Fields)
+				return n > 0 && n <= len(p.Owners) && p.Owners[n-1] != nil && p.Owners[n-1].Obj() == m.st.Obj() && p.Fields[n-1] == m.c
+			}
+			for _, b := range fn.Blocks {
+				for _, in := range b.Instrs {
+					switch x := in.(type) {
+					case *ssa.Store:
+						if isMemo(x.Addr) {
+							resets = true
+						} else if isSrc(x.Addr) {
+							updates = true
+						}
+					case *ssa.MapUpdate:
+						if ld, ok := ir.SeeThrough(x.Map).(*ssa.UnOp); ok && isSrc(ld.X) {
+							updates = true
+						}
+					case *ssa.Call:
+						if bi, ok := x.Common().Value.(*ssa.Builtin); ok && bi.Name() == "delete" && len(x.Common().Args) > 0 {
+							if ld, ok := ir.SeeThrough(x.Common().Args[0]).(*ssa.UnOp); ok && isSrc(ld.X) {
+								updates = true
+							}
+						}
+					}
+				}
+			}
+			if updates {
+				nupd++
+				if !resets {
+					missing = append(missing, fname(fn))
+				}
+			}
+		}
+		sort.Strings(missing)
+		var srcs []string
+		for f := range m.src {
+			srcs = append(srcs, f)
+		}
+		sort.Strings(srcs)
+		c.R.Check(len(missing) == 0, ruleT17, fmt.Sprintf("%s.%s:reset-by-every-update-of(%s)", m.st.Obj().Name(), m.c, strings.Join(srcs, ",")), c.P.Pos(m.method.Pos()),
+			fmt.Sprintf("%d function(s) updating the source fields, each stores the memo too", nupd),
+			fmt.Sprintf("%s answers from %s.%s, which it fills from %s, but %s update(s) %s without resetting it: the answer stays what it was before the update (a filter that was unsubscribed is restored for the next connection, a removed entry is still reported)", fname(m.method), m.st.Obj().Name(), m.c, strings.Join(srcs, ", "), joinStr(missing, ", "), strings.Join(srcs, ", ")))
+	}
+}
+
+// sessionSetupRefusesNothing: Session.Init and Session.Update run after the CONNECT was decoded and authenticated and
+// after the session store was changed; an error from them ends the connection without a CONNACK and leaves the store
+// changed. They may fail on their own state (initialised twice / not at all) but not on the content of the CONNECT.
+// Structurally: every error they return is created in place (fmt.Errorf, errors.New) under a test of the `initted`
+// flag, or is the error of the Encode / Decode with which the session copies the CONNECT; an error passed on from any
+// other call is a refusal of the CONNECT's content.
+func (c *Ctx) sessionSetupRefusesNothing() {
+	n := 0
+	for _, name := range []string{"Init", "Update"} {
+		fn := c.P.Func("sessions", "Session", name)
+		if fn == nil {
+			c.R.Unresolved("sessions.Session." + name)
+			continue
+		}
+		var bad []string
+		var judge func(v ssa.Value, d int) bool
+		judge = func(v ssa.Value, d int) bool {
+			if d > 6 {
+				return false
+			}
+			switch x := v.(type) {
+			case *ssa.Const:
+				return x.IsNil()
+			case *ssa.Phi:
+				for _, e := range x.Edges {
+					if !judge(e, d+1) {
+						return false
+					}
+				}
+				return true
+			case *ssa.UnOp:
+				if x.Op == token.MUL {
+					if al, ok := x.X.(*ssa.Alloc); ok && al.Referrers() != nil {
+						// the result slot of a function with a defer: every value stored into it
+						okAll := true
+						for _, r := range *al.Referrers() {
+							if st, isSt := r.(*ssa.Store); isSt && st.Addr == ssa.Value(al) && !judge(st.Val, d+1) {
+								okAll = false
+							}
+						}
+						return okAll
+					}
+				}
+			case *ssa.MakeInterface:
+				return judge(x.X, d+1)
+			case *ssa.Extract:
+				// the copy of the CONNECT the session keeps (re-encode, decode again) is the one accepted idiom of a
+				// passed-on error: it is the message the accept function has just decoded
+				if call, ok := x.Tuple.(*ssa.Call); ok {
+					if f := call.Common().StaticCallee(); f != nil && recvNamed(f) == "ConnectMessage" && (f.Name() == "Encode" || f.Name() == "Decode") {
+						return true
+					}
+				}
+				return false
+			case *ssa.Call:
+				callee := x.Common().StaticCallee()
+				if callee == nil || callee.Pkg == nil {
+					return false
+				}
+				pk := callee.Pkg.Pkg.Path()
+				if !(pk == "fmt" && callee.Name() == "Errorf" || pk == "errors" && callee.Name() == "New") {
+					return false
+				}
+				// created under a test of the initialisation flag
+				for b := x.Block(); b != nil; b = b.Idom() {
+					id := b.Idom()
+					if id == nil {
+						break
+					}
+					if iff, ok := id.Instrs[len(id.Instrs)-1].(*ssa.If); ok {
+						cond := ir.SeeThrough(iff.Cond)
+						if u, isU := cond.(*ssa.UnOp); isU && u.Op == token.NOT {
+							cond = ir.SeeThrough(u.X)
+						}
+						if ld, isLd := cond.(*ssa.UnOp); isLd && ld.Op == token.MUL {
+							if p := ir.PathOf(ld.X); len(p.Fields) > 0 && p.Fields[len(p.Fields)-1] == "initted" {
+								return true
+							}
+						}
+					}
+				}
+				return false
+			}
+			return false
+		}
+		for _, ret := range ir.Returns(fn) {
+			if len(ret.Results) == 0 {
+				continue
+			}
+			if !judge(ir.ReturnOperand(ret, len(ret.Results)-1), 0) {
+				bad = append(bad, c.P.InstrPos(ret))
+			}
+		}
+		n++
+		c.R.Check(len(bad) == 0, ruleP11, "Session."+name+":fails-only-on-its-own-state", c.P.Pos(fn.Pos()),
+			"every error returned is created under a test of the initialisation flag",
+			"Session."+name+" can return an error that does not come from its own initialisation state ("+joinStr(bad, ", ")+"): it runs after the CONNECT was authenticated and the session store changed, so a CONNECT it turns away gets no CONNACK at all while the store keeps the change (an existing session of that client id is already replaced or rewritten)")
+	}
+	c.R.Floor("session set-up functions (Init, Update)", n, 2)
+}
